@@ -9,12 +9,12 @@ ALL = ["C%02d" % i for i in range(1, 21)]
 CHECKS = {
     "C04": {
         "technique": "Lean 4 proof (generic release lemmas for try/finally + closeSrc/closeAll, instantiated per tool, for every world) + model/implementation correspondence + direct oracle on instrumented sources",
-        "text": "Lean theorems C04_<tool> for filter, filterfalse, enumerate, takewhile, dropwhile, starmap, accumulate, batched, islice, pairwise, zip, zip(strict), map, zip_longest, compress, merge, cycle, chain (C04_chain_exhausted: run to its end; C04_chain_closed: closed by its consumer, also inputs never reached) and the aggregations all, any, sum, min/max, reduce, list, tuple, sorted, nlargest/nsmallest: in EVERY world (every input, every fault position in sources/callables, consumer exhausting / closing after any number of items / throwing after any number of items) every source handed to the tool ends Released (async generator: closed, exhausted or finished by its own failure; class-based iterator with aclose: aclose() called or StopAsyncIteration delivered), provided the model did not run out of fuel; Properties/C04Fuel.lean discharges that proviso: 25 corollaries C04_<tool>_total state the release for EVERY world and every fuel >= (sum of the) script length(s) + 1 (Proofs/FuelAdequate.lean proves, with a small Hoare-style calculus over the model's loops, that this much fuel is always adequate; its constant is tight). cycle and sorted release their source although the scope is not their outermost construct (C04_cycle, C04_sorted: what follows the scope never touches a source; C04_cycle_total needs a consumer that ends after finitely many items — cycle diverges otherwise, as in Python). chain ended by an error (open finding D19), tee and groupby handles are not proved (set/dict: C04_set, C04_dict and their _total forms); they are covered by correspondence + oracle (tee by C09). On every run the real tools are driven over all tools x parameter grid x item sequences x {exhaust, every close cut, every throw cut} x every single fault position with async-generator and class-based sources and the release predicate is checked on the real objects.",
-        "note": "Hypothesis H-close: a user aclose() neither raises nor suspends. The fuel proviso (result is not outOfFuel) is a model artefact; non-occurrence for fuel > total script length is validated by the correspondence, not proved. Parameter-validation errors (batched n<1) are outside the property's wording. Known finding D19 (open): chain() raising while later iterables were never started leaves them unreleased until chain.aclose(); the check verifies they are released after the owner's aclose().",
+        "text": "Lean theorems C04_<tool> for filter, filterfalse, enumerate, takewhile, dropwhile, starmap, accumulate, batched, islice, pairwise, zip, zip(strict), map, zip_longest, compress, merge, cycle, chain (C04_chain_exhausted: run to its end; C04_chain_closed: closed by its consumer, also inputs never reached) and the aggregations all, any, sum, min/max, reduce, list, tuple, sorted, nlargest/nsmallest: in EVERY world (every input, every fault position in sources/callables, consumer exhausting / closing after any number of items / throwing after any number of items) every source handed to the tool ends Released (async generator: closed, exhausted or finished by its own failure; class-based iterator with aclose: aclose() called or StopAsyncIteration delivered), provided the model did not run out of fuel; Properties/C04Fuel.lean discharges that proviso: 25 corollaries C04_<tool>_total state the release for EVERY world and every fuel >= (sum of the) script length(s) + 1 (Proofs/FuelAdequate.lean proves, with a small Hoare-style calculus over the model's loops, that this much fuel is always adequate; its constant is tight). cycle and sorted release their source although the scope is not their outermost construct (C04_cycle, C04_sorted: what follows the scope never touches a source; C04_cycle_total needs a consumer that ends after finitely many items — cycle diverges otherwise, as in Python). chain ended by an error: C04_chain_raised / C04_chain_owner_close / C04_chain_unreleased_untouched (every source released after the owner's chain.aclose(), untouched before; open finding D19 is exactly the one-step gap); tee and groupby handles are not proved here (tee: C09; set/dict: C04_set, C04_dict and their _total forms). The clean-up helper _core.close_all used by zip / zip_longest / merge / chain.aclose since fix 67a7399 is modelled without H-close in Machines/Cleanup.lean: C04_cleanup_every_iterator_closed (every iterator that has an aclose gets it called exactly once, in order, whatever the others do), C04_cleanup_refines_nested (= leaving nested async-with ScopedIter blocks), C04_cleanup_finally, C04_cleanup_flat_skips_after_first_failure (what the old loop did: D17/D23), compared on every run with the real close_all and with real nested scopes. On every run the real tools are driven over all tools x parameter grid x item sequences x {exhaust, every close cut, every throw cut} x every single fault position with async-generator and class-based sources and the release predicate is checked on the real objects.",
+        "note": "Hypothesis H-close (a user aclose() neither raises nor suspends) is carried by the S1 release theorems; the clean-up step itself is proved without it (Machines/Cleanup.lean) and exercised by the oddsrc family (raising aclose / raising __aiter__; D23 fixed, D24 open). The fuel proviso (result is not outOfFuel) is discharged by Properties/C04Fuel.lean for every fuel above the script lengths. Every second class-based source of the harness offers aclose only through __getattr__ (found D22, fixed 8aa46cc). Parameter-validation errors (batched n<1) are outside the property's wording. Known finding D19 (open): chain() raising while later iterables were never started leaves them unreleased until chain.aclose(); the check verifies they are released after the owner's aclose().",
     },
     "C06": {
         "technique": "Lean 4 proof (Faithful: semantic predicate closed under the model's combinators, by induction on fuel/lists, for every world) + model/implementation correspondence + direct oracle on exception identity",
-        "text": "Faithful m: in every world the visible events m adds either contain no fault and m does not end with a user exception, or they END with exactly one fault event (source failing, callable failing, consumer throwing) carrying e, and m raises that very e. Corollaries C06_surfaces_at_once and C06_never_swallowed; C06_<tool> proves Faithful for the models of filter, filterfalse, enumerate, takewhile, dropwhile, starmap, accumulate, batched, chain's iterator, compress, cycle, islice, pairwise, zip, zip(strict), map, zip_longest, merge, iter(callable, sentinel), all, any, sum, min/max, reduce, list, tuple, sorted, nlargest/nsmallest. 'Same items before the failure as the stdlib' is the C05 twin theorem (proved for 17 of these). set/dict: C06_set, C06_dict. Not modelled: groupby, tee. On every run every single fault position is injected into the real tools (sync and async sources/callables) and the oracle checks items before the fault against the real stdlib, identity (`is`) of the exception reaching the consumer, and that nothing is used after the fault.",
+        "text": "Faithful m: in every world the visible events m adds either contain no fault and m does not end with a user exception, or they END with exactly one fault event (source failing, callable failing, consumer throwing) carrying e, and m raises that very e. Corollaries C06_surfaces_at_once and C06_never_swallowed; C06_<tool> proves Faithful for the models of filter, filterfalse, enumerate, takewhile, dropwhile, starmap, accumulate, batched, chain's iterator, compress, cycle, islice, pairwise, zip, zip(strict), map, zip_longest, merge, iter(callable, sentinel), all, any, sum, min/max, reduce, list, tuple, sorted, nlargest/nsmallest. 'Same items before the failure as the stdlib' is the C05 twin theorem (proved for 17 of these). set/dict: C06_set, C06_dict. chain handle: C06_chain. groupby under failing keys / failing pulls: Machines/GroupByFault.lean (C16_refines_under_faults, C16_failed_item_dropped, C16_fault_delivered_by_puller); tee: C09. On every run every single fault position is injected into the real tools (sync and async sources/callables) and the oracle checks items before the fault against the real stdlib, identity (`is`) of the exception reaching the consumer, and that nothing is used after the fault.",
         "note": "Injected exceptions are ordinary Exception subclasses. The model's sources/callables have one primitive for sync and async flavours; flavour-independence of the real code is checked by the correspondence (flavours rotated), see C03.",
     },
     "C05": {
@@ -30,7 +30,7 @@ CHECKS = {
     "C16": {
         "technique": "Lean 4 proof (simulation between two state machines under a reachable-state invariant, induction over operation sequences) + model/implementation correspondence",
         "text": "Lean theorem C16_refines: for every item/key sequence and every sequence of {advance groupby, advance group i} operations the model of asyncstdlib's GroupBy/_Grouper produces exactly the outputs of the model of CPython's groupby_next/_grouper_next (keys, handles, items, stops); plus C16_stale, C16_adv_detaches, C16_closed_group_stops. Both models are run against the real asyncstdlib.groupby and the real itertools.groupby on the same enumerated/random cases on every run.",
-        "note": "Trusted: Lean kernel; axioms propext/Quot.sound; correspondence is sampled (exhaustive small scope + random). Keys are modelled with decidable equality (the property's reflexive-equality hypothesis); faults in the key function/source are C06's subject, not modelled here.",
+        "note": "Trusted: Lean kernel; axioms propext/Quot.sound; correspondence is sampled (exhaustive small scope + random). Keys are modelled with decidable equality (the property's reflexive-equality hypothesis); faults in the key function / source: Machines/GroupByFault.lean and Properties/C16Fault.lean (C16_refines_under_faults: same outputs, exceptions and consumption as the CPython machine for every script mixing items, failing keys and failing pulls and every operation sequence; C16_fault_free_agrees; C16_failed_item_dropped; C16_failed_advance_detaches), compared with the real asyncstdlib.groupby and itertools.groupby on the key-fault family.",
     },
 }
 
